@@ -15,6 +15,7 @@ import (
 	"os"
 	"path/filepath"
 	"strings"
+	"sync"
 	"testing"
 	"testing/synctest"
 	"time"
@@ -118,8 +119,14 @@ func (c20) Generate(seed uint64, tier string, index int) any {
 		for i := 0; i < nk; i++ {
 			sc.Keys = append(sc.Keys, C20Key{Type: c20KeyTypes[g.R.Intn(len(c20KeyTypes))], Listed: g.R.Bool()})
 		}
+		for i := 0; i < nk; i++ {
+			if !sc.Keys[i].Listed && g.R.Bool() && sc.AKStyle != 3 {
+				sc.Keys = append(sc.Keys, C20Key{Type: sc.Keys[i].Type, Listed: true}) // a listed key of the same type
+				break
+			}
+		}
 		for i := range sc.Keys {
-			if !sc.Keys[i].Listed && g.R.Intn(2) == 0 {
+			if !sc.Keys[i].Listed && g.R.Intn(2) == 0 && hasListedTwin(sc.Keys, i) {
 				// an unlisted key that first shows a LISTED public key (query without
 				// signature) and then signs with its own key
 				sc.Sessions = append(sc.Sessions, C20Session{Key: i, Op: "trick-auth"})
@@ -156,6 +163,15 @@ func (c20) Generate(seed uint64, tier string, index int) any {
 	}
 	sc.Tr = Transport{CapCS: kernel.Unbounded, CapSC: kernel.Unbounded, Chunk: g.R.Intn(4), Bias: g.R.Intn(2), SchedSeed: g.R.Uint64() >> 1}
 	return sc
+}
+
+func hasListedTwin(keys []C20Key, i int) bool {
+	for k := range keys {
+		if k != i && keys[k].Listed && keys[k].Type == keys[i].Type {
+			return true
+		}
+	}
+	return false
 }
 
 func genSigner(typ string) (ssh.Signer, error) {
@@ -303,7 +319,8 @@ func (c20) Run(t *testing.T, scenario any, job *Job, res *Result) {
 				if s.Op == "trick-auth" {
 					var decoy ssh.PublicKey
 					for k := range sc.Keys {
-						if sc.Keys[k].Listed {
+						// the decoy must be of the same key type (the algorithm name is part of the query)
+						if sc.Keys[k].Listed && signers[k].PublicKey().Type() == signers[s.Key].PublicKey().Type() {
 							decoy = signers[k].PublicKey()
 						}
 					}
@@ -480,23 +497,34 @@ func cmdClass(s C20Session) string {
 }
 
 // c20Client performs one SSH client interaction over the simulated connection.
-// trickSigner shows a decoy public key the first time it is asked (the
-// publickey "query" that carries no signature) and its real key afterwards.
+// trickSigner is a hostile client key: while the client library asks the
+// server whether the key would be acceptable (the publickey query, which
+// carries no signature: two Marshal calls) it presents the LISTED public key
+// "decoy"; in the signed authentication request it presents its own key and
+// signs with its own private key.
 type trickSigner struct {
 	real  ssh.Signer
 	decoy ssh.PublicKey
+	mu    sync.Mutex
 	calls int
 }
 
-func (t *trickSigner) PublicKey() ssh.PublicKey {
-	t.calls++
-	if t.calls <= 1 && t.decoy != nil {
-		return t.decoy
-	}
-	return t.real.PublicKey()
-}
+func (t *trickSigner) PublicKey() ssh.PublicKey { return t }
 func (t *trickSigner) Sign(rand io.Reader, data []byte) (*ssh.Signature, error) {
 	return t.real.Sign(rand, data)
+}
+func (t *trickSigner) Type() string { return t.real.PublicKey().Type() }
+func (t *trickSigner) Marshal() []byte {
+	t.mu.Lock()
+	defer t.mu.Unlock()
+	t.calls++
+	if t.calls <= 2 && t.decoy != nil {
+		return t.decoy.Marshal()
+	}
+	return t.real.PublicKey().Marshal()
+}
+func (t *trickSigner) Verify(data []byte, sig *ssh.Signature) error {
+	return t.real.PublicKey().Verify(data, sig)
 }
 
 func c20Client(conn net.Conn, signer ssh.Signer, s C20Session, subst func(string) string, r *c20Result) {
